@@ -20,6 +20,9 @@ pub enum Sched {
     Adversarial { j0: usize },
     /// fill until exactly `gap` bytes before the given absolute positions, then continue
     StopAt { stops: Vec<usize> },
+    /// return exactly what the previous read left unfilled of its buffer (else random <= max):
+    /// lands reads on the consumer's previous buffer end
+    EchoLeftover { seed: u64, max: usize },
 }
 
 pub struct ScriptedSource {
@@ -29,6 +32,7 @@ pub struct ScriptedSource {
     rng: Rng,
     bounds: Arc<Vec<usize>>,
     jn: usize,
+    prev_left: usize,
     pub reads: u64,
     pub short_reads: u64,
     pub zero_reads: u64,
@@ -52,7 +56,7 @@ impl SrcCounts {
 impl ScriptedSource {
     pub fn new(data: Arc<Vec<u8>>, sched: Sched, bounds: Arc<Vec<usize>>) -> ScriptedSource {
         let seed = match &sched {
-            Sched::Random { seed, .. } | Sched::Bursty { seed } => *seed,
+            Sched::Random { seed, .. } | Sched::Bursty { seed } | Sched::EchoLeftover { seed, .. } => *seed,
             _ => 0,
         };
         let jn = match &sched {
@@ -66,6 +70,7 @@ impl ScriptedSource {
             rng: Rng::new(seed),
             bounds,
             jn,
+            prev_left: 0,
             reads: 0,
             short_reads: 0,
             zero_reads: 0,
@@ -115,6 +120,13 @@ impl Read for ScriptedSource {
                     None => want,
                 }
             }
+            Sched::EchoLeftover { max, .. } => {
+                if self.prev_left >= 1 && self.prev_left <= want && self.rng.chance(3, 4) {
+                    self.prev_left
+                } else {
+                    std::cmp::min(want, 1 + self.rng.usize(std::cmp::max(1, *max)))
+                }
+            }
             Sched::StopAt { stops } => {
                 let nb = stops.iter().find(|s| **s > self.pos);
                 match nb {
@@ -123,6 +135,7 @@ impl Read for ScriptedSource {
                 }
             }
         };
+        self.prev_left = buf.len() - n;
         if n < want {
             self.short_reads += 1;
             self.counts.short_reads.fetch_add(1, std::sync::atomic::Ordering::Relaxed);
@@ -211,7 +224,7 @@ impl Write for ScriptedSink {
 }
 
 pub fn gen_sched(rng: &mut Rng) -> Sched {
-    match rng.weighted(&[10, 10, 15, 25, 15, 25]) {
+    match rng.weighted(&[10, 10, 15, 25, 15, 25, 12]) {
         0 => Sched::All,
         1 => Sched::Fixed(1),
         2 => Sched::Fixed(*rng.pick(&[2usize, 3, 7, 16, 100, 4095, 4096, 4097, 65536])),
@@ -222,6 +235,7 @@ pub fn gen_sched(rng: &mut Rng) -> Sched {
         4 => Sched::Bursty {
             seed: rng.next_u64(),
         },
-        _ => Sched::Adversarial { j0: rng.usize(8) },
+        5 => Sched::Adversarial { j0: rng.usize(8) },
+        _ => Sched::EchoLeftover { seed: rng.next_u64(), max: *rng.pick(&[100usize, 5000, 70000]) },
     }
 }
